@@ -143,7 +143,7 @@ def run_tlc(ctx, module, cfg, workers=4, timeout=600, env=None, extra=None, xmx=
         m = re.match(r"Error: Action property (\S+) is violated", ln)
         if m:
             res["violated"] = m.group(1)
-        if re.match(r"Error: Temporal properties were violated", ln):
+        if re.match(r"Error: Temporal propert(ies were|y \S+ was) violated", ln):
             res["violated"] = "temporal"
         if ln.startswith("Error:") or "Parse Error" in ln or "Semantic error" in ln:
             res["errors"].append(ln)
@@ -231,19 +231,21 @@ def tlc_gen(ctx, module, cfg, out_edges, cfgobj=None, timeout=900, xmx="6g", tag
 
 def tlc_sim(ctx, module, cfg, out_traces, num, depth, cfgobj=None, timeout=900, tag=None):
     """Random behaviours from the spec: `tlc -simulate` with the edge-printing ACTION_CONSTRAINT (no state CONSTRAINT in
-    the Sim cfg). Consecutive printed edges chain (t of one = s of the next); a break in the chain starts a new behaviour."""
-    raw = ctx.path((tag or os.path.basename(cfg)) + ".simraw")
-    r = run_tlc(ctx, module, cfg, workers=1, timeout=timeout, out_file=raw, tag=tag,
-                extra=["-simulate", "num=%d" % num, "-depth", str(depth), "-seed", str(ctx.seed)])
-    if r.get("timeout"):
-        raise ToolError("TLC timeout on %s" % cfg)
-    if r["errors"]:
-        sys.stdout.write(subprocess.run(["tail", "-n", "30", raw], stdout=subprocess.PIPE, text=True).stdout)
-        raise ToolError("simulation run failed on %s: %s" % (cfg, r["errors"][:2]))
-    # The simulator evaluates the ACTION_CONSTRAINT for every candidate successor of the current state, so the output
-    # is a sequence of batches (same source state); the successor taken is the one the next batch starts from.
+    the Sim cfg). The simulator evaluates the ACTION_CONSTRAINT for every candidate successor of the current state, so the
+    output is a sequence of batches (same source state); the successor taken is the one the next batch starts from.
+    TLC's output (gigabytes for large alphabets) is parsed as it is produced and never stored."""
+    tag = tag or os.path.splitext(os.path.basename(cfg))[0]
+    md = ctx.path("md_" + tag + "_%d" % int(time.time() * 1000 % 1e9))
+    cmd = ["timeout", str(timeout)] + _java_cmd("4g", None, False)
+    cmd += ["-workers", "1", "-metadir", md, "-cleanup", "-noGenerateSpecTE",
+            "-simulate", "num=%d" % num, "-depth", str(depth), "-seed", str(ctx.seed),
+            "-config", os.path.join(SPEC, cfg), os.path.join(SPEC, module)]
+    t0 = time.time()
+    p = subprocess.Popen(cmd, cwd=SPEC, stdout=subprocess.PIPE, stderr=subprocess.STDOUT, text=True, bufsize=1 << 20)
     ntr, nst = 0, 0
-    with open(raw) as f, open(out_traces, "w") as o:
+    other = []            # the last non-edge lines (TLC's own messages)
+    errors = []
+    with open(out_traces, "w") as o:
         o.write(json.dumps({"cfg": cfgobj or {}}) + "\n")
         init = None
         cur = []          # steps of the behaviour being assembled
@@ -257,8 +259,13 @@ def tlc_sim(ctx, module, cfg, out_traces, num, depth, cfgobj=None, timeout=900, 
                 nst += len(cur)
             cur = []
 
-        for ln in f:
+        for ln in p.stdout:
             if not ln.startswith('"'):
+                other.append(ln.rstrip("\n"))
+                if len(other) > 200:
+                    del other[:100]
+                if ln.startswith("Error:"):
+                    errors.append(ln.strip())
                 continue
             try:
                 rec = json.loads(json.loads(ln))
@@ -283,11 +290,19 @@ def tlc_sim(ctx, module, cfg, out_traces, num, depth, cfgobj=None, timeout=900, 
             bsrc = rec["s"]
             batch.append(rec)
         flush()
-    os.remove(raw)
+    rc = p.wait()
+    shutil.rmtree(md, ignore_errors=True)
+    wall = round(time.time() - t0, 2)
+    if rc == 124:
+        raise ToolError("TLC timeout on %s" % cfg)
+    if errors:
+        sys.stdout.write("\n".join(other[-40:]) + "\n")
+        raise ToolError("simulation run failed on %s: %s" % (cfg, errors[:2]))
     if ntr == 0:
+        sys.stdout.write("\n".join(other[-40:]) + "\n")
         raise ToolError("simulation produced no behaviours: %s" % cfg)
     ctx.cov["tlc_runs"].append({"cfg": cfg, "role": "simulation (random behaviours)", "behaviours": ntr, "steps": nst,
-                                "depth": depth, "wall_s": r["wall"]})
+                                "depth": depth, "wall_s": wall})
     ctx.cov["transitions"] += nst
     return {"traces": ntr, "steps": nst}
 
